@@ -223,7 +223,7 @@ elab "ext_step" : tactic => withMainContext do
   unless t.isAppOf ``Hfsm.World.Ext && t.getAppNumArgs == 3 do throwError "not an `Ext` goal"
   let rhs := t.appArg!.consumeMData
   let lhs := t.appFn!.appArg!.consumeMData
-  if rhs == lhs then
+  if rhs == lhs || (!lhs.hasExprMVar && (← withReducible (isDefEq rhs lhs))) then
     evalTactic (← `(tactic| exact World.Ext.refl _))
   else if rhs.isFVar then
     evalTactic (← `(tactic| first
